@@ -46,6 +46,9 @@ CLAIMED = {
     "C03": ("exploration",
             "Seeded deterministic simulation of the real proxy between scripted raw-byte endpoints: every byte of both tunnel directions is a pure function of (stream, offset), so loss, duplication, reordering, truncation, missing EOF and leaked proxy sockets are exact facts; segmentation, interleaving, link capacity (back-pressure), coalescing of head/reply with payload, half-close order and RST faults are drawn from the seed. Right level: the property quantifies over schedules and segmentations, which sampling with replay reaches and tests cannot.",
             "DESIGN.md 4 C03", "deterministic simulation (seeded scheduler over in-memory TCP, fake clock) + byte-stream ledger oracle"),
+    "C20": ("exploration",
+            "Deterministic simulation in which the limiter is the only thing that moves the fake clock: read/write limits drawn independently (none, 64 KiB/s .. 16 MiB/s), 1-27 connections sharing the listener, downloads (Content-Length and chunked), uploads and tunnels of 16-48 MiB per limited direction. The undocumented burst allowance is learnt per run as the bytes that crossed before the clock first moved; then every time window must carry at most rate x time + 64 KiB per connection summed over all connections (shared bucket), the unlimited direction takes exactly zero simulated time, and payload is byte-exact.",
+            "DESIGN.md 4 C20", "deterministic simulation with simulated clock: windowed throughput bound on recorded (time, bytes) samples"),
 }
 
 NA_REASON = {
